@@ -357,6 +357,14 @@ def gen_foreign(rng, pool=None, shuffle=True, blanks=True, crlf=None,
             items.insert(rng.below(len(items) + 1),
                          ('x-id', 'v' * rng.choice([60, 100, 200])))
 
+        if long_opts and rng.chance(0.1):
+            # another producer's own options, with integer and integer-like
+            # values (the same key again on later headers, other values)
+            items.insert(rng.below(len(items) + 1),
+                         (rng.choice(['x-rev', 'mode', 'schema']),
+                          rng.choice(['100644', '-3', '007', '2', 'r12b',
+                                      '13', '-0', '00', '1.0'])))
+
         head = '#%s:' % sid
 
         if items:
@@ -441,6 +449,16 @@ def gen_foreign(rng, pool=None, shuffle=True, blanks=True, crlf=None,
                     raw = b'ab\r\n' + b'cd\nef\r\n' * n
                 else:
                     raw = b'ab\n' + b'cd\ref\n' * n
+
+            elif eff is None and rng.chance(0.12):
+                # a small diff with mixed line endings (its first line sets
+                # the kind)
+                n = rng.randint(1, 4)
+
+                if kind == 'dos':
+                    raw = b'ab\r\n' + b'cd\nef\r\n' * n
+                else:
+                    raw = b'ab\n' + b'cd\r\nef\n' * n
 
             if rng.chance(0.3):
                 opts.append(('type', rng.choice(['text', 'binary'])))
